@@ -33,6 +33,7 @@ type Stats struct {
 	Errors    int64
 	TimeNanos int64
 	Portfolio int64
+	Restarts  int64
 }
 
 var Global Stats
@@ -51,6 +52,7 @@ type Solver struct {
 	Trace   io.Writer
 	dead    bool
 	keepForModel bool
+	lines   chan string
 }
 
 func Argv(name string) []string {
@@ -89,6 +91,17 @@ func (s *Solver) start() {
 		panic(err)
 	}
 	s.out = bufio.NewReaderSize(op, 1<<16)
+	s.lines = make(chan string, 256)
+	go func(r *bufio.Reader, ch chan string) {
+		for {
+			line, err := r.ReadString('\n')
+			if err != nil {
+				close(ch)
+				return
+			}
+			ch <- line
+		}
+	}(s.out, s.lines)
 	s.defined = map[int]bool{}
 	s.decl = map[string]bool{}
 	s.script = nil
@@ -221,12 +234,36 @@ func (s *Solver) setTimeout(ms int) {
 }
 
 func (s *Solver) readLine() (string, bool) {
-	line, err := s.out.ReadString('\n')
-	if err != nil {
+	d := time.Duration(s.timeout)*time.Millisecond + 10*time.Second
+	if s.timeout <= 0 {
+		d = 120 * time.Second
+	}
+	select {
+	case line, ok := <-s.lines:
+		if !ok {
+			s.dead = true
+			return "", false
+		}
+		return strings.TrimSpace(line), true
+	case <-time.After(d):
+		// the solver ignores its own time limit: give up on this process
 		s.dead = true
 		return "", false
 	}
-	return strings.TrimSpace(line), true
+}
+
+// revive restarts a dead or confused solver process and re-establishes the current path scope.
+func (s *Solver) revive() {
+	script := append([]string(nil), s.script...)
+	defined, decl := s.defined, s.decl
+	s.Close()
+	s.start()
+	s.defined, s.decl = defined, decl
+	s.script = script
+	for _, l := range script {
+		s.send(l)
+	}
+	atomic.AddInt64(&Global.Restarts, 1)
 }
 
 // Check decides path-condition ∧ extra (extra may be nil).
@@ -235,7 +272,7 @@ func (s *Solver) Check(f *sym.Factory, extra *sym.Term, timeoutMs int) Result {
 	atomic.AddInt64(&Global.Queries, 1)
 	defer func() { atomic.AddInt64(&Global.TimeNanos, int64(time.Since(t0))) }()
 	if s.dead {
-		return Unknown
+		s.revive()
 	}
 	s.setTimeout(timeoutMs)
 	if extra != nil {
@@ -245,6 +282,7 @@ func (s *Solver) Check(f *sym.Factory, extra *sym.Term, timeoutMs int) Result {
 	}
 	s.send("(check-sat)")
 	res := Unknown
+	sawError := false
 	for {
 		line, ok := s.readLine()
 		if !ok {
@@ -255,7 +293,10 @@ func (s *Solver) Check(f *sym.Factory, extra *sym.Term, timeoutMs int) Result {
 		}
 		if strings.HasPrefix(line, "(error") {
 			atomic.AddInt64(&Global.Errors, 1)
-			fmt.Fprintf(os.Stderr, "solver %s: %s\n", s.name, line)
+			if os.Getenv("GOSYM_DEBUG") != "" {
+				fmt.Fprintf(os.Stderr, "solver %s: %s\n", s.name, line)
+			}
+			sawError = true
 			// keep reading: the check-sat answer still follows
 			continue
 		}
@@ -271,6 +312,15 @@ func (s *Solver) Check(f *sym.Factory, extra *sym.Term, timeoutMs int) Result {
 			continue
 		}
 		break
+	}
+	if sawError {
+		res = Unknown
+	}
+	if res == Unknown || s.dead {
+		// a timed-out incremental z3 is not trustworthy afterwards: start afresh at the path scope
+		s.revive()
+		atomic.AddInt64(&Global.Unknown, 1)
+		return Unknown
 	}
 	if extra != nil && !(res == Sat && s.keepForModel) {
 		s.send("(pop 1)")
